@@ -132,6 +132,10 @@ func (t *trzszTransfer) pipelineRecvHashAck(ctx context.Context, cancel context.
 	go func() {
 		defer close(matchChan)
 		matchStep := int64(0)
+		if size == 0 { // nothing to compare: no hash is sent, so no hash ack will ever arrive
+			matchChan <- matchStep
+			return
+		}
 		for ctx.Err() == nil {
 			hashAck, err := t.recvHashAck()
 			if err != nil {
